@@ -109,9 +109,9 @@ P['C15'] = {
 
 P['C17'] = {
     'units': ['fsink'],
-    'technique': 'Verus postcondition (mode table) on the real FileSink::new / NoCopyFileSink::new builder chains against a trusted open(2) specification',
-    'level_text': 'Open-mode half only: for every initial path state {absent, regular file with any content} and each mode, the result of the real builder chain equals the documented table (create fails iff the file exists; overwrite leaves empty content to write into; append keeps content, positions at end, creates if absent); open errors for other states are passed on by `?`. The durability half (consumed means on disk, crash points) is NOT decided.',
-    'level_note': 'Trusted: the POSIX open(2)/OpenOptions flag semantics written in units/fsink/unit.vx. work() (BufWriter, closure-based serialisation, flush-before-consume order, SIGKILL) is outside Verus\' subset and Kani cannot run the block.',
-    'not_covered': ['FileSink::work / NoCopyFileSink::work: write_all + flush before consume (durability, crash points)', 'directory / unwritable path states beyond "the open error is returned"'],
-    'assumptions': ['open(2) shim: fails iff (create_new and exists) or (neither create nor create_new and absent); truncate empties; append positions at end', 'File::create == write+create+truncate'],
+    'technique': 'Verus: mode-table postcondition on the real FileSink::new / NoCopyFileSink::new builder chains against a trusted open(2) specification; effect-order invariant (ghost write buffer / file content) on FileSink::work / NoCopyFileSink::work',
+    'level_text': 'Both halves, deductively: (1) for every initial path state {absent, regular file with any content} and each mode, the result of the real builder chain equals the documented table; open errors for other states are passed on by `?`. (2) work(): with ghost state (bytes on disk, bytes still in the BufWriter), the file content equals base ++ serialise(consumed samples) and the write buffer is empty whenever work() returns Ok, the file only ever grows and is always a prefix of the serialised stream -- for every window length; same for the packet sink (one line per popped packet).',
+    'level_note': 'Trusted: POSIX open(2)/OpenOptions flag semantics and the BufWriter/File append semantics written in units/fsink/unit.vx (write_all buffers or passes on a prefix, flush empties the buffer into the file, nothing rewrites the file). Real SIGKILL behaviour of the kernel page cache is outside any contract.',
+    'not_covered': ['directory / unwritable path states beyond "the open error is returned"', 'what the OS does with written-but-unsynced pages on power loss (no fsync in the code; the property only speaks of killing the process)'],
+    'assumptions': ['open(2) shim: fails iff (create_new and exists) or (neither create nor create_new and absent); truncate empties; append positions at end', 'File::create == write+create+truncate', 'BufWriter shim as described', 'a serialised sample is 1..64 bytes; cap * 64 fits usize'],
 }
